@@ -130,6 +130,11 @@ func (s *vScope) Unserialize(data any) (any, error) {
 	return data, nil
 }
 
+// RootObject: the stub input scope declares no properties of its own (its verdicts are choices).
+func (s *vScope) RootObject() *schema.ObjectSchema {
+	return schema.NewObjectSchema("input", map[string]*schema.PropertySchema{})
+}
+
 func (s *vScope) Serialize(data any) (any, error) {
 	if s.serFails {
 		return nil, &verifrt.Err{Msg: "cannot serialize"}
@@ -237,6 +242,7 @@ type vStep struct {
 	result    string
 	never     bool
 	finishedSeq int
+	preempted bool // closed before it could finish
 }
 
 // vRunHolder selects the vRun a Start call belongs to when one prepared workflow is executed several times.
@@ -405,9 +411,12 @@ func (s *vStep) await(stage string) (map[string]any, bool) {
 		verifAtomicSet(s, "", step.RunningStepStateRunning, "")
 		return in, true
 	case <-s.done:
+		verifAtomicPreempted(s)
 		return nil, false
 	}
 }
+
+func verifAtomicPreempted(s *vStep) { s.preempted = true }
 
 func verifAtomicAwait(s *vStep, stage string) {
 	if s.given[stage] {
@@ -490,6 +499,7 @@ func (s *vStep) life() {
 	if res == 3 {
 		verifAtomicNever(s)
 		<-s.done
+		verifAtomicPreempted(s)
 		res = s.pick("result-after-stop", 3)
 	}
 	verifAtomicExec(s, false)
